@@ -242,6 +242,14 @@ class PropertyCheck:
     def finding_key(self, case: dict, impl: dict, desc: str) -> str:
         return desc
 
+    def killed_impl(self, case: dict) -> dict:
+        """what to file for a case whose worker had to be killed (no answer within CASE_KILL_S)"""
+        raise Infra(f"the implementation did not come back within {CASE_KILL_S:.0f} s on case {json.dumps(case, default=str)[:300]}")
+
+    def skipped_impl(self, case: dict) -> dict:
+        """what to file for a case that was not run because KILL_LIMIT workers were lost before"""
+        raise Infra("cases skipped after repeated hangs, and the property does not say how to file them")
+
     def shrink_candidates(self, case: dict) -> Iterator[dict]:
         return iter(())
 
@@ -283,14 +291,157 @@ def _pool_run(case):
     return _impl_worker((_POOL_PROP, case))
 
 
+def isolated_call(fn, arg, timeout_s: float):
+    """fn(arg) in a forked child, its (picklable) result handed back through a pipe; (True, result) or (False, None) when the child
+    had to be killed because it did not answer within timeout_s (a loop inside one C call cannot be interrupted from within)"""
+    import pickle
+    import select
+    import signal as _signal
+    r, w = os.pipe()
+    pid = os.fork()
+    if pid == 0:
+        code = 1
+        try:
+            os.close(r)
+            data = pickle.dumps(fn(arg))
+            while data:
+                data = data[os.write(w, data):]
+            code = 0
+        finally:
+            os._exit(code)
+    os.close(w)
+    buf, deadline, killed = b"", time.time() + timeout_s, False
+    while True:
+        left = deadline - time.time()
+        if left <= 0:
+            killed = True
+            break
+        ready, _, _ = select.select([r], [], [], left)
+        if not ready:
+            killed = True
+            break
+        chunk = os.read(r, 1 << 16)
+        if not chunk:
+            break
+        buf += chunk
+    os.close(r)
+    if killed:
+        try:
+            os.kill(pid, _signal.SIGKILL)
+        except OSError:
+            pass
+    try:
+        os.waitpid(pid, 0)
+    except OSError:
+        pass
+    if not killed and buf:
+        try:
+            return True, pickle.loads(buf)
+        except Exception:
+            pass
+    return False, None
+
+
+IN_STREAM_WORKER = False   # True in the forked workers of run_impl_many
+CASE_KILL_S = float(os.environ.get("VERIF_CASE_KILL_S", "60"))   # wall seconds one case may keep a worker without answering
+KILL_LIMIT = 12                                                   # after this many killed workers the rest of the stream is not run
+
+
 def run_impl_many(prop: PropertyCheck, cases: List[dict]) -> List[dict]:
+    """Run the implementation on every case, in forked workers that the parent can lose: a worker whose case does not come back
+    within CASE_KILL_S is killed by the parent (nothing inside the worker could do it: Python signal handlers and threads do not
+    run while the interpreter sits inside one C call that keeps the GIL, e.g. a regular expression that backtracks for hours); the
+    parent then files that case as `prop.killed_impl(case)` and
+    hands the rest of the worker's cases to a new worker. After KILL_LIMIT such losses the remaining cases are filed as
+    `prop.skipped_impl(case)`: the hangs seen are reported with their inputs, which decides the run."""
     if not cases:
         return []
-    if prop.parallel and len(cases) >= 64 and NPROC > 1:
-        ctx = multiprocessing.get_context("fork")
-        with ctx.Pool(NPROC, initializer=_pool_init, initargs=(prop,)) as pool:
-            return pool.map(_pool_run, cases, chunksize=max(1, len(cases) // (NPROC * 8)))
-    return [_impl_worker((prop, c)) for c in cases]
+    if not (prop.parallel and len(cases) >= 64 and NPROC > 1):
+        return [_impl_worker((prop, c)) for c in cases]
+    import pickle
+    import select
+    import signal as _signal
+    import threading as _threading
+    n = len(cases)
+    results: List[Optional[dict]] = [None] * n
+    workers = {}      # read fd -> [pid, pending indices (in order), buffer]
+    kills = 0
+
+    def spawn(idxs):
+        r, w = os.pipe()
+        pid = os.fork()
+        if pid == 0:
+            code = 1
+            try:
+                os.close(r)
+                global IN_STREAM_WORKER
+                IN_STREAM_WORKER = True
+                for i in idxs:
+                    res = _impl_worker((prop, cases[i]))
+                    data = pickle.dumps((i, res))
+                    data = len(data).to_bytes(8, "big") + data
+                    while data:
+                        data = data[os.write(w, data):]
+                code = 0
+            finally:
+                os._exit(code)
+        os.close(w)
+        workers[r] = [pid, list(idxs), b"", time.time()]
+
+    per = max(1, -(-n // (NPROC * 4)))
+    queue = [list(range(k, min(n, k + per))) for k in range(0, n, per)]
+    while queue and len(workers) < NPROC:
+        spawn(queue.pop(0))
+    while workers:
+        ready, _, _ = select.select(list(workers), [], [], 5.0)
+        now = time.time()
+        for r, wk in workers.items():
+            if r not in ready and wk[1] and now - wk[3] > CASE_KILL_S:
+                # no answer for its current case: the worker is killed from outside (its end of file is handled below)
+                try:
+                    os.kill(wk[0], _signal.SIGKILL)
+                except OSError:
+                    pass
+                wk[3] = now
+        for r in ready:
+            pid, pending, buf, _t = workers[r]
+            chunk = os.read(r, 1 << 20)
+            if chunk:
+                workers[r][3] = time.time()
+                buf += chunk
+                while len(buf) >= 8:
+                    ln = int.from_bytes(buf[:8], "big")
+                    if len(buf) < 8 + ln:
+                        break
+                    i, res = pickle.loads(buf[8:8 + ln])
+                    buf = buf[8 + ln:]
+                    results[i] = res
+                    pending.remove(i)
+                workers[r][2] = buf
+                continue
+            # end of file: the worker is gone
+            os.close(r)
+            del workers[r]
+            try:
+                os.waitpid(pid, 0)
+            except OSError:
+                pass
+            if pending:
+                kills += 1
+                first, rest = pending[0], pending[1:]
+                results[first] = prop.killed_impl(cases[first])
+                if kills >= KILL_LIMIT:
+                    for i in rest:
+                        results[i] = prop.skipped_impl(cases[i])
+                    for q in queue:
+                        for i in q:
+                            results[i] = prop.skipped_impl(cases[i])
+                    queue = []
+                elif rest:
+                    queue.insert(0, rest)
+            while queue and len(workers) < NPROC:
+                spawn(queue.pop(0))
+    return results  # type: ignore
 
 
 # --------------------------------------------------------------------------------------
@@ -309,15 +460,17 @@ def load_known(pid: str) -> Dict[str, str]:
 # --------------------------------------------------------------------------------------
 
 def shrink(prop: PropertyCheck, case: dict, key: str, is_viol: Callable[[dict], Optional[str]], limit: int = 300) -> dict:
-    """greedy shrink preserving the same finding key"""
+    """greedy shrink preserving the same finding key; bounded in candidates AND in wall time (a case that makes the implementation
+    hang costs a whole watchdog period per candidate: the replay is then less minimal, not later)"""
     steps = 0
     progress = True
-    while progress and steps < limit:
+    deadline = time.time() + float(os.environ.get("VERIF_SHRINK_S", "90"))
+    while progress and steps < limit and time.time() < deadline:
         progress = False
         try:
             for cand in prop.shrink_candidates(case):
                 steps += 1
-                if steps >= limit:
+                if steps >= limit or time.time() >= deadline:
                     break
                 k = is_viol(cand)
                 if k is not None and k == key:
